@@ -1,13 +1,26 @@
-"""Setup-time self-test: the seams install, ml_metrics imports from /repo,
-and a few seeds replay bit-identically (same process, twice)."""
+"""Self-tests of the machinery itself.
+
+  selftest.py --setup          quick sanity check used by MANIFEST.setup_cmd
+  selftest.py --determinism [N] [family ...]
+      For every registered family, N run indices are executed (a) each as the
+      first run of a fresh interpreter, (b) all in one interpreter in order,
+      (c) all in one interpreter in reverse order and, for the families that do
+      not iterate string-hashed sets, (d) under another PYTHONHASHSEED; the
+      event-log digests must be identical.
+"""
+
+import json
 import os
+import subprocess
 import sys
+from concurrent import futures
 
 VERIF = os.path.dirname(os.path.dirname(os.path.abspath(__file__)))
 sys.path.insert(0, VERIF)
+PY = os.environ.get('VERIF_PYTHON', '/venv/bin/python')
 
 
-def main():
+def setup_check():
   if os.environ.get('PYTHONHASHSEED') != '0':
     os.environ['PYTHONHASHSEED'] = '0'
     os.execv(sys.executable, [sys.executable] + sys.argv)
@@ -25,5 +38,76 @@ def main():
   os._exit(0)
 
 
+def child(spec, base, indices):
+  from simkit import harness
+  harness.setup()
+  fam = harness.load_family(spec)
+  out = {}
+  for k in indices:
+    _, res = harness.run_random(
+        fam, harness.run_seed(fam.prop, spec, base, k))
+    out[k] = res['digest']
+  print('DIGESTS ' + json.dumps(out))
+  sys.stdout.flush()
+  os._exit(0)
+
+
+def run_child(spec, base, indices, hashseed='0', cpu=0):
+  env = dict(os.environ, PYTHONHASHSEED=hashseed, PYTHONPATH=VERIF,
+             PYTHONDONTWRITEBYTECODE='1')
+  p = subprocess.run(
+      [PY, os.path.abspath(__file__), '--child', spec, str(base),
+       ','.join(map(str, indices))],
+      capture_output=True, text=True, env=env, timeout=1200, check=False)
+  for line in p.stdout.splitlines():
+    if line.startswith('DIGESTS '):
+      return {int(k): v for k, v in json.loads(line[8:]).items()}
+  raise RuntimeError(f'child failed: {p.stdout[-500:]} {p.stderr[-2000:]}')
+
+
+def determinism(n, specs):
+  from simkit import registry
+  if not specs:
+    specs = sorted({f for c in registry.CHECKS.values() for f, _ in c['families']})
+  hash_free = set(registry.HASHSEED_INDEPENDENT)
+  base = 424242
+  bad = 0
+  with futures.ThreadPoolExecutor(max_workers=16) as ex:
+    for spec in specs:
+      idx = list(range(n))
+      jobs = {'batch': ex.submit(run_child, spec, base, idx),
+              'reverse': ex.submit(run_child, spec, base, idx[::-1])}
+      if spec in hash_free:
+        jobs['hashseed'] = ex.submit(run_child, spec, base, idx, '12345')
+      fresh = {k: ex.submit(run_child, spec, base, [k]) for k in idx}
+      ref = jobs['batch'].result()
+      n_bad = 0
+      for name, job in jobs.items():
+        got = job.result()
+        diff = [k for k in idx if got[k] != ref[k]]
+        if diff:
+          n_bad += len(diff)
+          print(f'NONDETERMINISM {spec}: {name} differs at indices {diff[:10]}')
+      diff = [k for k in idx if fresh[k].result()[k] != ref[k]]
+      if diff:
+        n_bad += len(diff)
+        print(f'NONDETERMINISM {spec}: fresh-interpreter differs at {diff[:10]}')
+      print(f'{spec}: {n} indices x {len(jobs) + 1} modes, mismatches {n_bad}',
+            flush=True)
+      bad += n_bad
+  print('determinism', 'FAILED' if bad else 'ok')
+  return 1 if bad else 0
+
+
 if __name__ == '__main__':
-  main()
+  if '--child' in sys.argv:
+    i = sys.argv.index('--child')
+    child(sys.argv[i + 1], int(sys.argv[i + 2]),
+          [int(x) for x in sys.argv[i + 3].split(',')])
+  elif '--determinism' in sys.argv:
+    rest = sys.argv[sys.argv.index('--determinism') + 1:]
+    n = int(rest[0]) if rest and rest[0].isdigit() else 24
+    specs = [a for a in rest if not a.isdigit()]
+    sys.exit(determinism(n, specs))
+  else:
+    setup_check()
